@@ -1,6 +1,7 @@
 package main
 
 import (
+	"go/ast"
 	"go/token"
 	"go/types"
 
@@ -113,6 +114,9 @@ func ruleDerivedKeyStores(c *Ctx, rule string, pkgs []*packages.Package) {
 	for _, sf := range p.SSAFuncsOf(pkgs) {
 		for _, f := range allSSAFuncs(sf) {
 			for _, mu := range derivedKeyStores(f) {
+				if invertsDistinctTable(p, f, mu) {
+					continue
+				}
 				n++
 				c.Ob(rule, ssaFuncName(f)+"/store", mu.Pos(), false, true, "out[<computed from the element>] = v while ranging over a map: two elements may compute the same key, and the survivor depends on map order")
 			}
@@ -150,6 +154,125 @@ func storeOnAbsentErrOnPresent(mu *ssa.MapUpdate) bool {
 				}
 			}
 		}
+	}
+	return false
+}
+
+// invertsDistinctTable: the store inverts a map (`out[v] = k` for k, v of the ranged map), the ranged map is a parameter,
+// and every caller in the module passes a package-level table written as a literal whose values are distinct constants:
+// no two elements compute the same key, so nothing depends on the order.
+func invertsDistinctTable(p *Prog, f *ssa.Function, mu *ssa.MapUpdate) bool {
+	ex, ok := stripConv(mu.Key).(*ssa.Extract)
+	if !ok || ex.Index != 2 {
+		return false
+	}
+	next, ok := ex.Tuple.(*ssa.Next)
+	if !ok {
+		return false
+	}
+	rng, ok := next.Iter.(*ssa.Range)
+	if !ok {
+		return false
+	}
+	par, ok := stripConv(rng.X).(*ssa.Parameter)
+	if !ok {
+		return false
+	}
+	idx := -1
+	for i, fp := range f.Params {
+		if fp == par {
+			idx = i
+		}
+	}
+	if idx < 0 {
+		return false
+	}
+	origin := f
+	if f.Origin() != nil {
+		origin = f.Origin()
+	}
+	calls := 0
+	scan := p.SSAFuncsOf(p.ModulePkgs())
+	if f.Pkg != nil {
+		// package-level tables are built in the package initialiser
+		if ini := f.Pkg.Func("init"); ini != nil {
+			scan = append(scan[:len(scan):len(scan)], ini)
+		}
+	}
+	for _, sf := range scan {
+		for _, g := range allSSAFuncs(sf) {
+			for _, call := range callsIn(g) {
+				sc := call.Call.StaticCallee()
+				if sc == nil || (sc != origin && sc.Origin() != origin) || idx >= len(call.Call.Args) {
+					continue
+				}
+				calls++
+				u, ok := stripConv(call.Call.Args[idx]).(*ssa.UnOp)
+				if !ok || u.Op != token.MUL {
+					return false
+				}
+				gl, ok := u.X.(*ssa.Global)
+				if !ok || gl.Object() == nil || !globalLiteralValuesDistinct(p, gl.Object()) {
+					return false
+				}
+			}
+		}
+	}
+	return calls > 0
+}
+
+// globalLiteralValuesDistinct: the package-level variable is initialised by a map literal whose values are constants,
+// no two of them equal, and is assigned nowhere else.
+func globalLiteralValuesDistinct(p *Prog, obj types.Object) bool {
+	for _, pk := range p.ModulePkgs() {
+		if pk.Types != obj.Pkg() {
+			continue
+		}
+		info := pk.TypesInfo
+		found, ok := false, true
+		for _, file := range pk.Syntax {
+			ast.Inspect(file, func(n ast.Node) bool {
+				switch x := n.(type) {
+				case *ast.ValueSpec:
+					for i, nm := range x.Names {
+						if info.Defs[nm] != obj || i >= len(x.Values) {
+							continue
+						}
+						cl, isLit := ast.Unparen(x.Values[i]).(*ast.CompositeLit)
+						if !isLit {
+							ok = false
+							continue
+						}
+						found = true
+						seen := map[string]bool{}
+						for _, e := range cl.Elts {
+							kv, isKV := e.(*ast.KeyValueExpr)
+							if !isKV {
+								ok = false
+								continue
+							}
+							tv, has := info.Types[kv.Value]
+							if !has || tv.Value == nil || seen[tv.Value.ExactString()] {
+								ok = false
+								continue
+							}
+							seen[tv.Value.ExactString()] = true
+						}
+					}
+				case *ast.AssignStmt:
+					for _, l := range x.Lhs {
+						if id, isID := l.(*ast.Ident); isID && info.Uses[id] == obj {
+							ok = false
+						}
+						if ix, isIx := l.(*ast.IndexExpr); isIx && identObj(info, ix.X) == obj {
+							ok = false
+						}
+					}
+				}
+				return true
+			})
+		}
+		return found && ok
 	}
 	return false
 }
